@@ -17,5 +17,5 @@ MANIFEST = {
     "design_ref": "DESIGN.md §5 C05",
     "technique": "Lean specification of repair application with plain LR semantics (validSeq, editSeq) evaluated on every reported error and repair sequence of the real recoverer; plain-parse-of-edited-input equivalence through the LR driver model of C01",
     "text": "For every error the real parser reports, the Lean side recomputes the configuration in which the plain LR driver (the model proved sound/complete under C01) fails on the input edited by the first repair sequence of all earlier errors, requires the reported error to be exactly there, evaluates validSeq (the sequence applies with plain LR semantics and a plain parse then continues over at least 3 further real lexemes or to acceptance) on EVERY reported sequence, and finally requires the returned tree to equal the plain parse of the fully edited input, leaf by leaf (real lexeme index, or inserted token with its zero-length position).",
-    "note": "The validator is a specification evaluated per reported error (the quantifier over grammars, inputs and cost functions is sampled); theorems in Props/C05.lean are about the specification functions. The recoverer's own search is not modelled here (see C06). Trusted: Lean kernel, worker process, orchestrator.",
+    "note": "Theorems (Props/C05.lean): applying a sequence = feeding the tokens of the edited input (applySeq_is_edited_input); feeding a token to the stack automaton is a run of the full LR driver with trees (feed_is_lr_steps); a valid sequence leaves the parser where a plain parse runs N lexemes or accepts (validSeq_runs = the premise of C07). The validator is evaluated per reported error, so the quantifier over grammars, inputs and cost functions is sampled. Known finding: on grammars whose table has conflicts the returned tree can differ from the plain parse of the edited input while both are valid derivations of it. Trusted: Lean kernel, worker process, orchestrator.",
 }
